@@ -205,16 +205,11 @@ def expected(world, req, pool_paths):
     if kind == "str":
         return R.fmt_path(ppath(req[1]), "M" if world.watch_only else "m")
     if kind == "bip85":
-        app, param, index = req[1], req[2], req[3]
-        if app == "mnemonic":
-            return R85.mnemonic(rm, param, index)
-        if app == "wif":
-            return R85.wif(rm, index)
-        if app == "xprv":
-            return R85.xprv(rm, index)
-        if app == "hex":
-            return R85.hex_(rm, param, index)
-        return R85.pwd(rm, param, index)
+        # purity oracle: the same request on a FRESH wallet object (what the values should be is C12's business)
+        fw, _ = world.fresh_node([])
+        fresh_world = World.__new__(World)
+        fresh_world.W = fw
+        return do_request(fresh_world, req)[0]
     if kind == "generate":
         w, _ = world.fresh_node([])
         return json.loads(json.dumps(w.generate(req[1], (req[2], req[2] + req[3]))))
